@@ -75,6 +75,19 @@ def _status_value(ident, src, rel):
     return _int_const(src, ident, rel)
 
 
+DEFAULTS = {"exempt": [("Upgrade", "websocket"), ("Accept", "text/event-stream")],
+            "sse_headers": [("Content-Type", "text/event-stream"), ("Cache-Control", "no-cache"),
+                            ("Connection", "keep-alive")]}
+
+
+def extract_or_defaults():
+    """for case generation / rendering only: never raises (regen() reports what is broken)"""
+    try:
+        return extract()
+    except Exception:
+        return dict(DEFAULTS)
+
+
 def extract():
     c = {}
     rel = "rest/handler/timeouthandler.go"
@@ -100,7 +113,7 @@ def extract():
     c["code_deadline"] = _status_value(m.group(2), s, rel)
     if not re.search(r"func \(h \*timeoutHandler\) errorBody\(\) string \{\s*return reason\s*\}", s):
         _fail("errorBody() returning reason", rel)
-    m = re.search(r"tw := &timeoutWriter\{[^}]*\bcode:\s*([\w.]+),", serve)
+    m = re.search(r"tw := &timeoutWriter\{[^}]*\bcode:\s*([\w.]+),", serve) or re.search(r"\btw\.code = (http\.\w+)\n", s)
     if not m:
         _fail("the initial code of the timeoutWriter", rel)
     c["code_default"] = _status_value(m.group(1), s, rel)
